@@ -34,3 +34,33 @@ Theorem update_edge_order_free : forall al es es' po, Permutation es es' ->
   end.
 Proof. exact update_edge_order_free_lemma. Qed.
 Print Assumptions update_edge_order_free.
+
+(* Allocate(): the allocation (or the error) is the same for any order of the recorded edges *)
+Theorem allocate_order_free : forall fuel regs al es es' po, Permutation es es' ->
+  a_allocate fuel {| a_regs := regs; a_alloc := al; a_edges := es; a_poss := po |}
+  = a_allocate fuel {| a_regs := regs; a_alloc := al; a_edges := es'; a_poss := po |}.
+Proof. exact allocate_order_free_lemma. Qed.
+Print Assumptions allocate_order_free.
+
+(* AddInterferenceSet(r, s) ranges over the map s: for any two enumeration orders the allocator state
+   is the same up to the order of the edge list ... *)
+Theorem interference_edges_order_free : forall a d order order', Permutation order order' ->
+  let s := a_add_interference_set a d order in let s' := a_add_interference_set a d order' in
+  a_regs s = a_regs s' /\ a_alloc s = a_alloc s' /\ Permutation (a_edges s) (a_edges s') /\ a_poss s = a_poss s'.
+Proof. exact interference_edges_order_free_lemma. Qed.
+Print Assumptions interference_edges_order_free.
+(* ... and therefore the allocation computed from it is identical *)
+Theorem allocate_after_interference_order_free : forall fuel a d order order', Permutation order order' ->
+  a_allocate fuel (a_add_interference_set a d order) = a_allocate fuel (a_add_interference_set a d order').
+Proof. exact allocate_after_interference_order_free_lemma. Qed.
+Print Assumptions allocate_after_interference_order_free.
+
+(* Allocation.Merge(b) ranges over b: inserting its entries in any order gives the same map or the
+   same error; the model's merge_alloc is this fold for one enumeration *)
+Theorem merge_order_free : forall a b l', Permutation (map_to_list b) l' ->
+  merge_alloc a b = fold_left merge_step l' (OK a).
+Proof.
+  intros a b l' H. rewrite merge_alloc_is_fold. apply merge_order_free_lemma.
+  eapply perm_trans; [apply Permutation_sym, Permutation_rev|exact H].
+Qed.
+Print Assumptions merge_order_free.
